@@ -168,7 +168,9 @@ func Run(st Store, h History) (*Violation, Stats, error) {
 		return nil, stats, fmt.Errorf("initial model of %s: %w", h.Doc, err)
 	}
 	if obs, err := st.Observe(path); err != nil || obs != model.String() {
-		return nil, stats, fmt.Errorf("initial observation of %s does not match its own model: %v\nobs:   %s\nmodel: %s", h.Doc, err, obs, model.String())
+		// the starting document's model is stated independently (generator ground truth): pdfcpu reads
+		// the untouched document differently from what was written
+		return &Violation{Class: "initial-state-mismatch", Step: -1, Detail: fmt.Sprintf("the starting document %s, before any operation, is not observed as what it is: %v\n%s", h.Doc, err, stateDiff(obs, model.String()))}, stats, nil
 	}
 	for i, s := range h.Steps {
 		if !st.Valid(model, s) {
@@ -250,7 +252,11 @@ func Run(st Store, h History) (*Violation, Stats, error) {
 		simfs.Deactivate()
 		stats.Events += len(sim.Events)
 		mk := func(class, detail string) *Violation {
-			return &Violation{Class: class, Step: i, Detail: fmt.Sprintf("step %d: %s\nreturned err=%v panicked=%v %v\nmodel before: %s\n%s\n%s", i+1, s, execErr, panicked, panicVal, before.String(), detail, stack)}
+			mb := before.String()
+			if strings.Count(mb, "\n") > 3 {
+				mb = "(long; replay prints it)"
+			}
+			return &Violation{Class: class, Step: i, Detail: fmt.Sprintf("step %d: %s\nreturned err=%v panicked=%v %v\n%s\nmodel before: %s\n%s", i+1, s, execErr, panicked, panicVal, detail, mb, stack)}
 		}
 		// nothing but the document may be in its directory
 		removeFaulted := false
@@ -325,7 +331,7 @@ func Run(st Store, h History) (*Violation, Stats, error) {
 			return mk("unreadable-after-success", fmt.Sprintf("the step reported success but the document can no longer be read: %v", oerr)), stats, nil
 		}
 		if obs != model.String() {
-			return mk("state-mismatch", fmt.Sprintf("observed: %s\nexpected: %s", obs, model.String())), stats, nil
+			return mk("state-mismatch", stateDiff(obs, model.String())), stats, nil
 		}
 		if err := st.Structural(path, model); err != nil {
 			return mk("structure", err.Error()), stats, nil
@@ -358,7 +364,9 @@ func Shrink(st Store, h History, class string, budget int) History {
 		return err == nil && v != nil && v.Class == class
 	}
 	// cut after the violating step
-	if v, _, err := Run(st, h); err == nil && v != nil && v.Step+1 < len(h.Steps) {
+	if v, _, err := Run(st, h); err == nil && v != nil && v.Step < 0 {
+		return History{Doc: h.Doc}
+	} else if err == nil && v != nil && v.Step+1 < len(h.Steps) {
 		h.Steps = h.Steps[:v.Step+1]
 	}
 	// drop single steps, last first
@@ -407,6 +415,33 @@ func initialModelOf(st Store, doc string) (Model, error) {
 	}
 	initModels[key] = m
 	return m.Clone(), nil
+}
+
+// stateDiff shows both states when short, the differing lines otherwise.
+func stateDiff(obs, want string) string {
+	if !strings.Contains(obs, "\n") {
+		return fmt.Sprintf("observed: %s\nexpected: %s", obs, want)
+	}
+	o, w := strings.Split(obs, "\n"), strings.Split(want, "\n")
+	var sb strings.Builder
+	n := 0
+	for i := 0; i < len(o) || i < len(w); i++ {
+		var a, b string
+		if i < len(o) {
+			a = o[i]
+		}
+		if i < len(w) {
+			b = w[i]
+		}
+		if a != b {
+			fmt.Fprintf(&sb, "observed %s\nexpected %s\n", a, b)
+			if n++; n >= 6 {
+				sb.WriteString("...\n")
+				break
+			}
+		}
+	}
+	return sb.String()
 }
 
 func sortedKeys[V any](m map[string]V) []string {
